@@ -70,6 +70,8 @@ def run(ctx):
             nl = src.count("while") + src.count("for (")
             if res[True]["infinite"]:
                 kinds["one-loop" if nl == 1 else "multi-loop"] += 1
+    ssf, ssinfo = streams.small_scope_check(ctx, "C02", 800)
+    failing += [f for f in ssf if f["sig"][1] in ("verdict", "raise")]
     if ctx.coq_ok:
         mism += e2e.coq_compare("c02", coq_cases)
         m1, n_aux = unitcorr.poly_aux(ctx, ctx.n(200, 2000))
@@ -81,11 +83,11 @@ def run(ctx):
     if recs and not (0.05 < dist["share_infinite"] < 0.95):
         mism.append("generator degenerate (verdict distribution): " + str(dist))
     distinct = len({repr(d["typed"]) for d in recs if streams.nontrivial(d)})
-    stats = {"evaluations": len(recs), "distinct_nontrivial": distinct,
+    stats = {"evaluations": len(recs) + 2 * ssinfo["programs"], "distinct_nontrivial": distinct,
              "rule": "generated functions x {early-stop, run-to-completion}; verdict compared with the calculus over all 3^k vectors; non-trivial = distinct "
                      "typed function with >=1 site and a loop or branch",
              "samples": [streams.CORPUS[2][1], progs[-1][1]], "distribution": dist, "infinite_kinds": kinds, "mode_pairs_agreeing": agree,
-             "coq_model_cases": len(coq_cases), "programs": len(progs)}
+             "coq_model_cases": len(coq_cases), "programs": len(progs), "small_scope": ssinfo}
     return {"failing": failing, "corr_mismatch": mism, "stats": stats}
 
 
